@@ -103,8 +103,8 @@ func (c *checker) report(f *dnsgen.File, a, b string, kind, qname, qtype, client
 // checkFile runs one file through all variants and compares.
 func (c *checker) checkFile(f *dnsgen.File, withOptions bool) (sample interface{}) {
 	atomic.AddInt64(&c.files, 1)
-	clients := dnsgen.Clients(f.HasECS)
-	amb := dnsgen.AmbiguousTargets(f.Lines, dnsgen.Locations)
+	clients := f.Clients()
+	amb := dnsgen.AmbiguousTargets(f.Lines, dnsgen.AllLocations())
 	variants := dnsgen.BaseVariants()
 	if withOptions {
 		variants = append(variants, dnsgen.OptionVariants()...)
@@ -195,7 +195,9 @@ func main() {
 	var core []int
 	for i := range items {
 		all[i] = i
-		if (r.Thorough() && items[i].Core) || items[i].Quick {
+		// the pool of the largest subsets: quick = the Quick items, thorough = the Core items (every
+		// pair of Quick items is inside the thorough tier's "every pair of the whole alphabet")
+		if (r.Thorough() && items[i].Core) || (!r.Thorough() && items[i].Quick) {
 			core = append(core, i)
 		}
 	}
@@ -305,6 +307,26 @@ func selByIDs(items []dnsgen.Item, ids []string) []int {
 
 func runOnly(c *checker, only string) {
 	f := dnsgen.Build(c.items, selByIDs(c.items, strings.Split(only, ",")))
+	if show := os.Getenv("C02_SHOW"); show != "" { // debugging aid: print the responses to "<qname>/<qtype>" for every client and backend
+		p := strings.SplitN(show, "/", 2)
+		amb := dnsgen.AmbiguousTargets(f.Lines, dnsgen.AllLocations())
+		for _, v := range dnsgen.BaseVariants() {
+			st, err := dnsgen.OpenStore(c.dir, v, f.Text())
+			if err != nil {
+				fmt.Printf("%s: %v\n", v.Name, err)
+				continue
+			}
+			for _, cl := range f.Clients() {
+				for _, q := range c.queries {
+					if q.Name == p[0] && dnsgen.TypeName(q.Type) == p[1] {
+						fmt.Printf("--- %s %s\n%s\n", v.Name, cl.ID, st.Ask(q, cl, amb))
+					}
+				}
+			}
+			st.Close()
+		}
+		return
+	}
 	c.checkFile(f, os.Getenv("C02_OPTIONS") != "")
 	fmt.Printf("%s", f.Text())
 	l, _ := c.min.Minimal()
